@@ -310,11 +310,11 @@ func (p *parser) typeName() string {
 		return s + "[]" + p.typeName()
 	}
 	id := p.ident()
-	if (id == "$dom" || id == "$val" || id == "map") && p.accept("[") {
+	if (id == "$dom" || id == "$val" || id == "map" || id == "$row") && p.accept("[") {
 		k := p.typeName()
 		p.expect("]")
-		if id == "$dom" {
-			return s + "$dom[" + k + "]"
+		if id == "$dom" || id == "$row" {
+			return s + id + "[" + k + "]"
 		}
 		return s + id + "[" + k + "]" + p.typeName()
 	}
@@ -855,7 +855,7 @@ func ParseContractFile(path string) (*ContractFile, error) {
 				return nil, fmt.Errorf("%s:%d: modifies outside func", path, rc.line)
 			}
 			cur.HasMod = true
-			for _, f := range strings.Fields(strings.ReplaceAll(body[len("modifies"):], ",", " ")) {
+			for _, f := range splitTopLevel(body[len("modifies"):]) {
 				if f != "nothing" {
 					cur.Modifies = append(cur.Modifies, f)
 				}
@@ -950,4 +950,32 @@ func ParseContractFile(path string) (*ContractFile, error) {
 		}
 	}
 	return cf, nil
+}
+
+// splitTopLevel splits at whitespace/commas that are not inside parentheses.
+func splitTopLevel(s string) []string {
+	var out []string
+	depth := 0
+	cur := ""
+	for _, r := range s {
+		switch {
+		case r == '(':
+			depth++
+			cur += string(r)
+		case r == ')':
+			depth--
+			cur += string(r)
+		case (r == ' ' || r == ',' || r == '\t') && depth == 0:
+			if cur != "" {
+				out = append(out, cur)
+				cur = ""
+			}
+		default:
+			cur += string(r)
+		}
+	}
+	if cur != "" {
+		out = append(out, cur)
+	}
+	return out
 }
